@@ -161,6 +161,9 @@ func (rep *Report) takeCover(def *propDef, st *CoverStats, cats []*cat.Catalog, 
 				// the strict prediction failed: is the observed execution still one the
 				// specification allows when independent parameters are built in another order?
 				ok, done := vetted[ex.Line]
+				if !done && len(vetted) >= 40 {
+					continue // second opinions are bounded per stage; unvetted examples decide nothing
+				}
 				if !done {
 					if ml, err := run.ParseModelLine(ex.Line); err == nil {
 						res := run.Replay(cats[ex.Ci-1], ml, run.ReplayOpts{Keep: true})
